@@ -15,7 +15,10 @@ R = Rules(
         "None, returns False and arms the expiry with EXCHANGE_LIFETIME of the message's tuning popping the same "
         "key -- a value fixed when the timer is armed, not read from the mutable message when it fires; the reply is "
         "recorded (only for known keys) before it is transmitted; nothing that may be an ACK reaches the transmission "
-        "primitive on a way that does not start in _send_initially; nobody else writes the table. "
+        "primitive on a way that does not start in _send_initially; nobody else writes the table; Message.__init__ hands "
+        "the message ID / type / token it is given at the message layer's construction sites into the fields for every value "
+        "(ID 0, type number 0, empty token); every tuning class a received message can carry on its way from Message.decode "
+        "to the filter evaluates EXCHANGE_LIFETIME to the value of the default TransportTuning. "
         "Timing around the 247 s boundary and run-time equality of endpoint objects are not decided."
     ),
     rule_text=(
@@ -25,7 +28,9 @@ R = Rules(
         "tracing through locals; alias- and lambda-aware who-may-write over the whole package; backward message flow "
         "from every reference to message_interface.send through conduit functions, nested defs, scheduled method values "
         "and partials to the originating call sites (WireFlow), with the message type decided from constructions and "
-        "dominating conditions"
+        "dominating conditions; concrete interpretation of Message.__init__ on representatives of the identifier domain per "
+        "construction site (ObjSim); origin tracing of the message handed to dispatch_message and exact evaluation of "
+        "EXCHANGE_LIFETIME along the class hierarchy of each tuning class it may carry (ClassEval)"
     ),
 )
 
@@ -776,6 +781,488 @@ def h(ctx):
                bad is None, si, pin, detail=bad)
 
 
+MSG_CLS = "aiocoap.message.Message"
+TYPE_CLS = "aiocoap.numbers.types.Type"
+_ID_FIELDS = ("mid", "mtype", "token")
+
+
+def _bindings(fnode, name):
+    """Every value bound to local `name` in fnode (assignment, element of a tuple assignment, walrus); None stands
+    for a binding whose value is not an expression of the function (loop target, with-target, except name)."""
+    vals = []
+    for n in walk_no_nested(fnode):
+        if isinstance(n, (ast.Assign, ast.AnnAssign)):
+            targets = n.targets if isinstance(n, ast.Assign) else [n.target]
+            if n.value is None:
+                continue
+            for t in targets:
+                if isinstance(t, ast.Name) and t.id == name:
+                    vals.append(n.value)
+                elif isinstance(t, (ast.Tuple, ast.List)):
+                    if isinstance(n.value, (ast.Tuple, ast.List)) and len(t.elts) == len(n.value.elts):
+                        for x, v in zip(t.elts, n.value.elts):
+                            if isinstance(x, ast.Name) and x.id == name:
+                                vals.append(None if isinstance(v, ast.Starred) else v)
+                    elif any(isinstance(x, ast.Name) and x.id == name for x in ast.walk(t)):
+                        vals.append(None)
+        elif isinstance(n, ast.AugAssign) and isinstance(n.target, ast.Name) and n.target.id == name:
+            vals.append(None)
+        elif isinstance(n, ast.NamedExpr) and n.target.id == name:
+            vals.append(n.value)
+        elif isinstance(n, (ast.For, ast.AsyncFor, ast.comprehension)) and any(isinstance(x, ast.Name) and x.id == name for x in ast.walk(n.target)):
+            vals.append(None)
+        elif isinstance(n, (ast.With, ast.AsyncWith)):
+            for it in n.items:
+                if it.optional_vars is not None and any(isinstance(x, ast.Name) and x.id == name for x in ast.walk(it.optional_vars)):
+                    vals.append(None)
+        elif isinstance(n, ast.ExceptHandler) and n.name == name:
+            vals.append(None)
+    return vals
+
+
+def _is_param(fnode, name):
+    a = fnode.args
+    return any(x.arg == name for x in a.posonlyargs + a.args + a.kwonlyargs + [y for y in (a.vararg, a.kwarg) if y])
+
+
+def _site_value(scope, fi, e):
+    """The value a keyword argument has at a construction site when it is the same on every execution (a constant, an
+    enumeration member, possibly through a local that names it); None when it varies (then the whole domain counts)."""
+    e = _deep_resolve(fi.node, _resolve(fi.node, e))
+    if isinstance(e, ast.Constant):
+        return ("c", e.value)
+    c = chain(e)
+    if c is None:
+        return None
+    head = c.split(".")[0]
+    if _is_param(fi.node, head) or _bindings(fi.node, head):
+        return None
+    v = scope.resolve(fi.module, c)
+    if v is not None and v[0] in ("enum", "c"):
+        return v
+    return None
+
+
+def _show(v):
+    if v[0] == "c":
+        return repr(v[1])
+    if v[0] == "enum":
+        return v[2]
+    if v[0] == "new":
+        return "%s()" % str(v[1]).split(".")[-1]
+    if v[0] == "unk":
+        return "<unknown: %s>" % v[1]
+    return v[0]
+
+
+@R.clause("C04.i", "a message built with a message ID, type or token carries exactly what it was given: Message.__init__ hands every value of the identifier space (ID 0, type CON, empty token included) into the field under which replies are recorded")
+def i(ctx):
+    # A reply is recorded under (reply.remote, reply.mid) and found again under (request.remote, request.mid); the
+    # acknowledgements are built with `Message(<spelling of mid>=<the request's ID>, <spelling of mtype>=ACK ...)`.
+    # That "constructor keyword" and "attribute assignment" are the same fact is a property of Message.__init__, and
+    # it has to hold for every value the keyword can have at the site -- the ID space includes 0, the types include
+    # the one whose number is 0, a token may be empty.  Decided by running Message.__init__ (as the rules see it,
+    # helpers expanded) on representatives of the domain for the keyword set of every construction in the message
+    # layer and in Message.decode, and comparing the fields it leaves behind with what was passed.  Which keyword
+    # feeds which field is found by a probe run, not by its name.
+    from itertools import product
+    from ._kit_c04 import ObjSim, ModuleScope, Unsupported, constructions
+
+    prog = ctx.prog
+    prog.cls("message.Message")
+    try:
+        sim = ObjSim(prog, MSG_CLS)
+        init = sim.init
+        base = [r for r in sim.run({}) if r[0] == "return"]
+        ctx.need(base and all(not r[2] and all(f in r[1] and r[1][f][0] != "unk" for f in _ID_FIELDS) for r in base),
+                 "Message.__init__ without identifier arguments cannot be interpreted (fields %s)" % (
+                     [{f: _show(r[1].get(f, ("unk", "not set"))) for f in _ID_FIELDS} for r in base][:1]))
+        scope = ModuleScope(prog)
+        em = scope.enum_members(TYPE_CLS)
+        ctx.need(em is not None and len(em[0]) >= 4, "numbers.types.Type is not an enumeration with constant members")
+        domain = {
+            "mid": [("c", 0), ("c", 1), ("c", 0x1234), ("c", 0xFFFF)],
+            "token": [("c", b""), ("c", b"\x00"), ("c", b"tk")],
+            "mtype": [scope.member(TYPE_CLS, n) for n in sorted(em[0], key=lambda n: em[0][n])],
+        }
+        # which parameter feeds which field
+        feeds = {}
+        for p in sim.param_names():
+            mk = ("marker", p)
+            hit = set()
+            for kind, fields, clob, info in sim.run({p: mk}):
+                if kind != "return":
+                    continue
+                for f in _ID_FIELDS:
+                    v = fields.get(f)
+                    if v == mk or (v is not None and v[0] == "conv" and v[2] == mk):
+                        hit.add(f)
+            if len(hit) == 1:
+                feeds[p] = hit.pop()
+            elif hit:
+                raise AnalysisError("parameter %s of Message.__init__ reaches several identifier fields %s" % (p, sorted(hit)))
+        ctx.note("Message.__init__: %s" % ", ".join("%s -> .%s" % kv for kv in sorted(feeds.items())))
+        funcs = [f for f in prog.funcs.values() if f.module.name == "aiocoap.messagemanager"]
+        dec = prog.lookup_method(MSG_CLS, "decode")
+        if dec is not None:
+            funcs.append(dec)
+        n_sites = n_runs = 0
+        for f in funcs:
+            for call, kws, opaque in constructions(prog, f, MSG_CLS):
+                idk = [k for k in kws if k in feeds]
+                if not idk:
+                    continue
+                if opaque:
+                    ctx.note("%s: `%s` passes arguments the interpreter cannot see (positional / **)" % (f.name, stmt_text(call, 50)))
+                n_sites += 1
+                choices = []
+                for k in idk:
+                    v = _site_value(scope, f, kws[k])
+                    choices.append([v] if v is not None else domain[feeds[k]])
+                fixed = {}
+                for k in kws:
+                    if k not in feeds and k in sim.param_names():
+                        v = _site_value(scope, f, kws[k])
+                        fixed[k] = v if v is not None else ("unk", "argument %s" % k)
+                bad = {}
+                unknown = None
+                for combo in product(*choices):
+                    kw = dict(fixed)
+                    kw.update(zip(idk, combo))
+                    res = sim.run(kw)
+                    n_runs += 1
+                    rets = [r for r in res if r[0] == "return"]
+                    given = ", ".join("%s=%s" % (k, _show(v)) for k, v in zip(idk, combo))
+                    if not rets:
+                        bad.setdefault("*", "%s: the construction raises (%s)" % (given, res[0][3] if res else "no path"))
+                        continue
+                    # what each field is expected to hold: the value given for it (when two spellings of the same
+                    # field are given at one site the code has to pick one of them)
+                    for fld in {feeds[k] for k in idk}:
+                        want = [v for k, v in zip(idk, combo) if feeds[k] == fld]
+                        for kind, fields, clob, info in rets:
+                            got = fields.get(fld, ("unk", "not set"))
+                            if got[0] == "unk" or clob:
+                                unknown = "%s: field %s is %s" % (given, fld, _show(got))
+                                continue
+                            if not any(sim.eq(got, w) is True for w in want):
+                                bad.setdefault(fld, "%s: the object's %s is %s" % (given, fld, _show(got)))
+                ctx.need(unknown is None or bad, "Message.__init__ cannot be interpreted for `%s`: %s" % (stmt_text(call, 60), unknown))
+                for fld in sorted({feeds[k] for k in idk} | ({"*"} if "*" in bad else set())):
+                    what = "the message built here can be built for every identifier" if fld == "*" else "the message built here carries the %s it is given, whatever its value" % fld
+                    ctx.ob(what, fld not in bad, f, call, detail=bad.get(fld))
+        ctx.note("%d construction sites with identifier arguments, %d constructor runs" % (n_sites, n_runs))
+    except Unsupported as ex:
+        raise AnalysisError("Message.__init__ is outside what the constructor interpreter understands: %s" % ex)
+
+
+def _tuning_classes(prog, fi, e, own, depth=5):
+    """{class qn: node} -- the classes of the objects expression e (in fi) may denote when it is stored as the
+    transport tuning of a message; `own` are the local names of that message (its own tuning adds nothing).
+    Raises AnalysisError when a possible value cannot be traced to a class of the package."""
+    from ._kit_c04 import ModuleScope
+
+    scope = ModuleScope(prog)
+    out = {}
+
+    def cls_of_name(c):
+        head = c.split(".")[0]
+        if "." not in c:
+            f = fi
+            while f is not None:
+                q = f.qn.split("#")[0] + ".<locals>." + c
+                if q in prog.classes:
+                    return ("cls", q)
+                f = f.parent
+        if _is_param(fi.node, head) or _bindings(fi.node, head):
+            return None
+        return scope.resolve(fi.module, c)
+
+    def rec(x, d):
+        if d < 0:
+            raise AnalysisError("tuning value `%s` in %s: too many indirections" % (stmt_text(e, 40), fi.name))
+        if isinstance(x, ast.Constant) and x.value is None:
+            return
+        if isinstance(x, ast.IfExp):
+            rec(x.body, d - 1)
+            rec(x.orelse, d - 1)
+            return
+        if isinstance(x, ast.BoolOp):
+            for v in x.values:
+                rec(v, d - 1)
+            return
+        if isinstance(x, ast.NamedExpr):
+            rec(x.value, d - 1)
+            return
+        if isinstance(x, ast.Attribute) and x.attr == "transport_tuning":
+            b = x.value
+            for _ in range(4):
+                if not isinstance(b, ast.Name):
+                    break
+                if b.id in own:
+                    return
+                b = _assigned(fi.node, b.id)
+            raise AnalysisError("a received message gets the tuning of another object (`%s` in %s): its class is not known statically" % (stmt_text(x, 40), fi.name))
+        if isinstance(x, ast.Call) and not x.args and not x.keywords:
+            c = chain(x.func)
+            r = cls_of_name(c) if c else None
+            if r is not None and r[0] == "cls":
+                out.setdefault(r[1], x)
+                return
+        c = chain(x)
+        if c is not None:
+            r = cls_of_name(c)
+            if r is not None and r[0] in ("cls", "new") and r[1] in prog.classes:
+                out.setdefault(r[1], x)
+                return
+            if r is not None and r == ("c", None):
+                return
+            if isinstance(x, ast.Name):
+                vals = _bindings(fi.node, x.id)
+                if vals and all(v is not None for v in vals) and not _is_param(fi.node, x.id):
+                    for v in vals:
+                        rec(v, d - 1)
+                    return
+        raise AnalysisError("the tuning object `%s` given to a received message in %s cannot be traced to a class of the package" % (stmt_text(x, 40), fi.name))
+
+    rec(e, depth)
+    return out
+
+
+def _tuning_stores(fi, own):
+    """[(node, value expr)] of the stores to <m>.transport_tuning in fi for m one of the names `own` (or an alias)"""
+    res = []
+
+    def is_own(b):
+        # the name itself, or a local that merely names it
+        for _ in range(4):
+            if not isinstance(b, ast.Name):
+                return False
+            if b.id in own:
+                return True
+            b = _assigned(fi.node, b.id)
+        return False
+
+    for n in walk_no_nested(fi.node):
+        if isinstance(n, (ast.Assign, ast.AnnAssign, ast.AugAssign)):
+            targets = n.targets if isinstance(n, ast.Assign) else [n.target]
+            for t in targets:
+                for x in (t.elts if isinstance(t, (ast.Tuple, ast.List)) else [t]):
+                    if isinstance(x, ast.Attribute) and x.attr == "transport_tuning" and is_own(x.value):
+                        v = n.value
+                        if isinstance(t, (ast.Tuple, ast.List)):
+                            v = n.value.elts[t.elts.index(x)] if isinstance(n.value, (ast.Tuple, ast.List)) and len(n.value.elts) == len(t.elts) else None
+                        res.append((n, v if not isinstance(n, ast.AugAssign) else None))
+        elif isinstance(n, ast.Call) and chain(n.func) == "setattr" and len(n.args) == 3 and is_own(n.args[0]):
+            k = n.args[1]
+            if not isinstance(k, ast.Constant):
+                res.append((n, None))
+            elif k.value == "transport_tuning":
+                res.append((n, n.args[2]))
+    return res
+
+
+@R.clause("C04.j", "the lifetime of a remembered identifier is the EXCHANGE_LIFETIME of RFC 7252 for every received message: whatever tuning object a decoded message can carry evaluates EXCHANGE_LIFETIME to the value of the default TransportTuning")
+def j(ctx):
+    # The filter arms the expiry with <received message>.transport_tuning.EXCHANGE_LIFETIME (C04.c), C04.f pins the
+    # formulas and defaults of the class TransportTuning.  What joins the two: the object found in .transport_tuning
+    # of a message that reaches dispatch_message.  Two sites maintain the invariant together and either may change as
+    # long as it holds:
+    #   (A) the classes of the tuning objects a received message may carry: what the constructor leaves there for the
+    #       way Message.decode (or the transport) builds the object, plus every later store to its .transport_tuning on
+    #       the way to the filter (decode, the transport's receive function, dispatch_message, the filter itself);
+    #   (B) the number EXCHANGE_LIFETIME evaluates to for each of these classes (attributes and properties looked up
+    #       along the class hierarchy, exact arithmetic).
+    # Obligation: for every class of (A) the value (B) equals that of TransportTuning itself.  Tagging received messages
+    # with Reliable()/Unreliable() is fine while these compute 247 s; overriding MAX_RETRANSMIT in Unreliable is fine
+    # while no received message carries an Unreliable.
+    from ._kit_c04 import ObjSim, ClassEval, Unsupported, constructions
+
+    prog = ctx.prog
+    BASE = "aiocoap.numbers.constants.TransportTuning"
+    prog.cls("numbers.constants.TransportTuning")
+    ctx.need(prog.lookup_method(MSG_CLS, "transport_tuning") is None and all(
+        "transport_tuning" not in prog.classes[q].attrs for q in prog.mro(MSG_CLS) if q in prog.classes),
+        "Message.transport_tuning is not a plain instance attribute")
+    try:
+        be = ClassEval(prog, BASE)
+        ref = be.get("EXCHANGE_LIFETIME")
+    except Unsupported as ex:
+        raise AnalysisError("TransportTuning.EXCHANGE_LIFETIME cannot be evaluated: %s" % ex)
+    deps = set(be.deps)
+    origins = []  # (class qn, function, node)
+
+    def add(classes, f, node=None):
+        for q, n in classes.items():
+            origins.append((q, f, node if node is not None else n))
+
+    def from_construction(f, call, kws, opaque):
+        """tuning left behind by the constructor for this construction"""
+        ctx.need(not opaque, "`%s` in %s passes arguments the interpreter cannot see" % (stmt_text(call, 50), f.name))
+        try:
+            sim = ObjSim(prog, MSG_CLS)
+            kw = {k: ("unk", "argument %s" % k) for k in kws if k in sim.param_names() and k != "transport_tuning"}
+            # keywords that are not parameters go to **kwargs (options): they do not matter here
+            res = [r for r in sim.run(kw) if r[0] == "return"]
+        except Unsupported as ex:
+            raise AnalysisError("Message.__init__ is outside what the constructor interpreter understands: %s" % ex)
+        ctx.need(res, "Message.__init__ has no normal path for `%s`" % stmt_text(call, 50))
+        for kind, fields, clob, info in res:
+            v = fields.get("transport_tuning", ("unk", "not set"))
+            ctx.need(not clob and v[0] in ("new", "cls") and v[1] in prog.classes,
+                     "the tuning Message.__init__ gives a message built by `%s` is not a known class (%s)" % (stmt_text(call, 50), _show(v)))
+            origins.append((v[1], f, call))
+        if "transport_tuning" in kws:
+            add(_tuning_classes(prog, f, kws["transport_tuning"], set()), f, call)
+
+    def objects_of(f, e, seen):
+        """local names / constructions the expression e of f may denote -> ([names], [construction calls], [decode calls])"""
+        names, ctors, decs = [], [], []
+        cons = {id(c): (c, k, o) for c, k, o in constructions(prog, f, MSG_CLS)}
+
+        def rec(x, d):
+            if d < 0:
+                raise AnalysisError("origin of the message `%s` in %s: too many indirections" % (stmt_text(e, 40), f.name))
+            if isinstance(x, ast.Await):
+                x = x.value
+            if isinstance(x, ast.Name):
+                if x.id in names:
+                    return
+                vals = _bindings(f.node, x.id)
+                ctx.need(vals and all(v is not None for v in vals) and not _is_param(f.node, x.id),
+                         "the message `%s` in %s does not originate in that function" % (x.id, f.name))
+                names.append(x.id)
+                for v in vals:
+                    rec(v, d - 1)
+                return
+            if isinstance(x, ast.IfExp):
+                rec(x.body, d - 1)
+                rec(x.orelse, d - 1)
+                return
+            if isinstance(x, ast.Call):
+                if id(x) in cons:
+                    ctors.append(cons[id(x)])
+                    return
+                if isinstance(x.func, ast.Attribute):
+                    c = chain(x.func.value)
+                    recv_cls = None
+                    if c is not None:
+                        if f.cls is not None and f.cls.qn == MSG_CLS and c == (params_all(f) or [None])[0]:
+                            recv_cls = MSG_CLS
+                        elif not _is_param(f.node, c.split(".")[0]) and not _bindings(f.node, c.split(".")[0]):
+                            recv_cls = prog.resolve_in_module(f.module, c)
+                    if recv_cls == MSG_CLS:
+                        m = prog.lookup_method(MSG_CLS, x.func.attr)
+                        if m is not None:
+                            decs.append((x, m))
+                            return
+            raise AnalysisError("the origin `%s` of a message handed to dispatch_message in %s is neither Message.decode(...) nor a construction" % (stmt_text(x, 50), f.name))
+
+        rec(e, 5)
+        return names, ctors, decs
+
+    def params_all(f):
+        a = f.node.args
+        return [x.arg for x in a.posonlyargs + a.args]
+
+    def analyse_factory(m, depth=0):
+        """a classmethod / staticmethod of Message that returns the decoded object"""
+        ctx.need(depth < 3, "nesting of message factories")
+        rets = [n for n in walk_no_nested(m.node) if isinstance(n, ast.Return) and n.value is not None]
+        ctx.need(rets, "%s returns nothing" % m.name)
+        for r in rets:
+            names, ctors, decs = objects_of(m, r.value, set())
+            for call, kws, opaque in ctors:
+                from_construction(m, call, kws, opaque)
+            for call, m2 in decs:
+                ctx.need(m2 is not m, "%s is recursive" % m.name)
+                analyse_factory(m2, depth + 1)
+            for node, v in _tuning_stores(m, set(names)):
+                ctx.need(v is not None, "store `%s` in %s cannot be interpreted" % (stmt_text(node, 50), m.name))
+                add(_tuning_classes(prog, m, v, set(names)), m, node)
+
+    sites = []
+    for f in prog.funcs.values():
+        for c in walk_no_nested(f.node):
+            if isinstance(c, ast.Call) and isinstance(c.func, ast.Attribute) and c.func.attr == "dispatch_message" and len(c.args) + len(c.keywords) == 1:
+                if f.module.name == "aiocoap.messagemanager" and f.cls is not None and f.name == "dispatch_message":
+                    continue
+                sites.append((f, c))
+    ctx.floor("places where a transport hands a received message to dispatch_message", len(sites), 1)
+    factories = set()
+    for f, c in sites:
+        arg = c.args[0] if c.args else c.keywords[0].value
+        names, ctors, decs = objects_of(f, arg, set())
+        for call, kws, opaque in ctors:
+            from_construction(f, call, kws, opaque)
+        for call, m in decs:
+            if m.qn not in factories:
+                factories.add(m.qn)
+                analyse_factory(m)
+        for node, v in _tuning_stores(f, set(names)):
+            ctx.need(v is not None, "store `%s` in %s cannot be interpreted" % (stmt_text(node, 50), f.name))
+            add(_tuning_classes(prog, f, v, set(names)), f, node)
+    # on the way from dispatch_message to the read in the filter
+    for short in (MM + "dispatch_message", MM + "_deduplicate_message"):
+        f = prog.func(short)
+        own = {params(f)[0]}
+        for node, v in _tuning_stores(f, own):
+            ctx.need(v is not None, "store `%s` in %s cannot be interpreted" % (stmt_text(node, 50), f.name))
+            add(_tuning_classes(prog, f, v, own), f, node)
+    ctx.floor("tuning classes a received message may carry", len(origins), 1)
+    carried = {q for q, _f, _n in origins}
+    # nothing re-defines, at run time, a parameter the lifetime is computed from
+    all_deps = set(deps)
+    values = {}
+    for q in sorted(carried):
+        try:
+            ce = ClassEval(prog, q)
+            values[q] = ce.get("EXCHANGE_LIFETIME")
+            all_deps |= set(ce.deps)
+        except Unsupported as ex:
+            raise AnalysisError("EXCHANGE_LIFETIME of %s (a tuning class a received message may carry) cannot be evaluated: %s" % (q.split(".")[-1], ex))
+    family = {a for q in carried | {BASE} for a in prog.mro(q)}
+    for mod in prog.modules.values():
+        pm = None
+        for n in ast.walk(mod.tree):
+            tgt = None
+            if isinstance(n, ast.Attribute) and isinstance(n.ctx, (ast.Store, ast.Del)) and n.attr in all_deps:
+                tgt = n.value
+            elif isinstance(n, ast.Call) and chain(n.func) == "setattr" and len(n.args) == 3 and isinstance(n.args[1], ast.Constant) and n.args[1].value in all_deps:
+                tgt = n.args[0]
+            if tgt is None:
+                continue
+            pm = pm or prog.parent_map(mod)
+            owner = pm.get(id(n))
+            while owner is not None and not isinstance(owner, (ast.FunctionDef, ast.AsyncFunctionDef)):
+                owner = pm.get(id(owner))
+            fo = next((x for x in prog.funcs.values() if x.node is owner), None)
+            c = chain(tgt) or ""
+            hits_family = c.endswith("transport_tuning")
+            if not hits_family and c and fo is not None and c == (params_all(fo) or [None])[0] and fo.cls is not None:
+                if fo.cls.qn in family or any(fo.cls.qn in prog.mro(q) for q in carried):
+                    hits_family = True
+                elif BASE in prog.mro(fo.cls.qn):
+                    continue  # a tuning class of its own that no received message carries
+            if not hits_family and c:
+                r = prog.resolve_in_module(mod, c)
+                if r in family:
+                    hits_family = True
+            ctx.need(hits_family, "`%s` assigns a transmission parameter of an object the analysis cannot identify" % stmt_text(n, 60))
+            ctx.ob("no transmission parameter that EXCHANGE_LIFETIME is computed from is re-defined at run time on the tuning of a received message",
+                   False, fo, n, detail="the value read by the filter is no longer the one of the class")
+    seen = set()
+    for q, f, node in origins:
+        k = (q, id(node))
+        if k in seen:
+            continue
+        seen.add(k)
+        ctx.ob("a received message's tuning evaluates EXCHANGE_LIFETIME to the value of the default parameters (%s s)" % (ref if ref.denominator != 1 else int(ref)),
+               values[q] == ref, f, node, construct="%s: received message carries %s" % (stmt_text(node, 60), q.split(".")[-1]),
+               detail="%s.EXCHANGE_LIFETIME = %s" % (q.split(".")[-1], float(values[q])))
+    ctx.note("tuning classes of received messages: %s" % ", ".join(sorted(x.split(".")[-1] for x in carried)))
+
+
 F_MM = "aiocoap/messagemanager.py"
 R.seed("C04.a", F_MM, "        key = (message.remote, message.mid)\n        if key in self._recent_messages:\n            if message.mtype is CON:", "        key = message.mid\n        if key in self._recent_messages:\n            if message.mtype is CON:", "keyed by mid only")
 R.seed("C04.a", F_MM, "        key = (message.remote, message.mid)\n        if key in self._recent_messages:\n            self._recent_messages[key] = message", "        key = (message.mid, message.remote)\n        if key in self._recent_messages:\n            self._recent_messages[key] = message", "components swapped on one side")
@@ -812,3 +1299,11 @@ R.seed("C04.h", F_MM, "        self._send_initially(ack)\n", "        self.messa
 R.seed("C04.h", F_MM, "        self._send_initially(ack)\n", "        self.loop.call_soon(self._send_via_transport, ack)\n", "empty ACK sent by a scheduled call of the transmission primitive")
 R.seed("C04.h", F_MM, "        else:\n            self._send_initially(message, messageerror_monitor)\n\n    def _send_initially", "        elif message.mtype is CON:\n            self._send_initially(message, messageerror_monitor)\n        else:\n            self._send_via_transport(message)\n\n    def _send_initially", "only CONs go through the recording sender: piggybacked responses are not recorded")
 R.seed("C04.h", F_MM, "        self._store_response_for_duplicates(message)\n\n        self._send_via_transport(message)", "        if message.mtype is CON:\n            self._store_response_for_duplicates(message)\n\n        self._send_via_transport(message)", "acknowledgements pass the sender without being offered to the recording step")
+
+# fifth pass: the constructor hands identifiers on for every value (C04.i); the tuning of received messages has the
+# lifetime of the default parameters (C04.j)
+F_MSG = "aiocoap/message.py"
+R.seed("C04.i", F_MSG, "        if mid is not None:\n", "        if mid:\n", "message ID 0 given through the deprecated spelling is dropped: the empty ACK for a suppressed response gets a fresh ID")
+R.seed("C04.i", F_MSG, "        self.mid = _mid\n", "        self.mid = _mid or None\n", "message ID 0 never reaches the field")
+R.seed("C04.j", F_MSG, "        msg.mtype = Type(mtype)\n", "        msg.mtype = Type(mtype)\n        class _Brief(TransportTuning):\n            MAX_RETRANSMIT = 0\n        msg.transport_tuning = _Brief()\n", "received messages carry a tuning whose EXCHANGE_LIFETIME is 202 s")
+R.seed("C04.j", F_MSG, "        msg.mtype = Type(mtype)\n", "        msg.mtype = Type(mtype)\n        msg.transport_tuning.MAX_LATENCY = 50\n", "a parameter of the received message's tuning re-defined at run time")
